@@ -316,6 +316,11 @@ Definition call_fun (fuel : nat) (f : vfunc) (args : list value) : runres :=
   let '(o, n) := push_args args in
   run fuel (mkstate (mkframe f 0 zero_locals zero_ilocals 0 0) o n 0 []).
 
+(* the same when an earlier evaluation with the same EvalEnv left [vl0] in the stack's variadicLen register *)
+Definition call_fun_vl (vl0 : Z) (fuel : nat) (f : vfunc) (args : list value) : runres :=
+  let '(o, n) := push_args args in
+  run fuel (mkstate (mkframe f 0 zero_locals zero_ilocals 0 0) o n vl0 []).
+
 End VM.
 
 (* the two instantiations of a compiled function *)
